@@ -371,7 +371,7 @@ func ruleIteratorEndMarker(r *Report) {
 	n := 0
 	for _, fn := range p.ModuleFuncs() {
 		pk := fnPkg(fn)
-		if pk == nil || fn.Blocks == nil || fn.Name() != "Next" || fn.Signature.Recv() == nil || fn.Parent() != nil {
+		if pk == nil || fn.Blocks == nil || fnName(fn) != "Next" || fn.Signature.Recv() == nil || fn.Parent() != nil {
 			continue
 		}
 		if sp := shortPkg(pk.Path()); sp != "sstables" && sp != "memstore" {
